@@ -55,6 +55,40 @@ def lemmas():
     yield ('escaping:character-wise-on-all-pairs', not bad, 'pairs %r' % bad[:5])
 
 
+def gls_bounded(seed):
+    """tex2txt.get_line_starts (assumed contract of generate_html: one
+    entry per line, the offset after each line break): compared with the
+    definition on all strings of length <= 4 over an alphabet that contains
+    every character str.splitlines() treats as a line boundary"""
+    import itertools
+    from pyvc import replay as _r
+    t2t = _r.real_module('yalafi.tex2txt')
+    alpha = 'a\n\r\x0b\x0c\x1c\x1d\x1e\x85\u2028\u2029'
+    n, fails = 0, []
+    for ln in range(0, 5):
+        for t in itertools.product(alpha, repeat=ln):
+            s = ''.join(t)
+            n += 1
+            want = [0] + [i + 1 for i, c in enumerate(s) if c == '\n']
+            try:
+                got = t2t.get_line_starts(s)
+            except Exception as e:      # noqa
+                got = 'exception %r' % (e,)
+            if got != want:
+                fails.append({'s': s, 'got': got, 'want': want})
+                if len(fails) >= 3:
+                    break
+        if len(fails) >= 3:
+            break
+    return {'name': 'get_line_starts-is-offsets-after-each-newline',
+            'bounded': True,
+            'bound': 'all strings of length <= 4 over 11 characters (a and '
+                     'the ten line-boundary characters of str.splitlines)',
+            'evaluations': n, 'failures': fails}
+
+
+QUICK_BOUNDED = [gls_bounded]
+
 TRUSTED = [
     're.sub with a single literal character as pattern and a literal replacement is a character-wise map (checked on all pairs '
     'of the eight character classes by running the real function)',
